@@ -16,6 +16,8 @@ Block protocol (14443-4 section 7.5.4, PICC rules; CID and NAD are not supported
   rule D  I-block received (any number)          -> toggle, then answer
   rule E  R(ACK) with number != own received      -> toggle, then continue chaining (rule 13)
   rule 9  S(WTX) request may be sent instead of an I-block or R(ACK); after the S(WTX) response the answer follows
+          (7.3: request INF = power level indication b8-b7 | WTXM b6-b1, response INF = 00 | the same WTXM; wtx_power /
+          wtx_strict select what the card sends and whether it insists on b8-b7 = 00 in the response)
   rule 10 I-block without chaining received       -> I-block
   rule 11 R(ACK)/R(NAK) with number == own        -> last block is retransmitted
   rule 12 R(NAK) with number != own               -> R(ACK)
@@ -128,6 +130,15 @@ class T4TCard(object):
         self.responder = None      # callable(apdu) -> response bytes | None (fall through to the file system)
         self.apdu_script = None    # callable(n, apdu) -> response bytes | "mute" | None   (n-th executed APDU)
         self.wtx_fn = None         # callable(card, answer_block, round) -> WTXM (0: none) for the block about to be sent
+        # S(WTX) INF byte (ISO/IEC 14443-4 7.3): request  b8-b7 power level indication (00 = not supported), b6-b1 WTXM 1..59;
+        # response b8-b7 = 00 (other values RFU), b6-b1 the same WTXM.  wtx_power: the power level indication this card puts
+        # into its requests.  wtx_strict: True = the whole response INF byte must equal the WTXM (a response with b8-b7 != 00
+        # is an RFU coding -> protocol error -> no answer); False = a card that ignores b8-b7 of the response
+        self.wtx_power = 0
+        self.wtx_strict = True
+        # callable(card, block) -> None (normal protocol engine) | "mute" | bytes: a card that deliberately breaks the
+        # block protocol for this block (storm / misbehaving cards); never set by default
+        self.block_hook = None
         self.on_state_change = lambda: None
         self.reset_logs()
         self.power_cycle()
@@ -152,6 +163,8 @@ class T4TCard(object):
         self.max_rx_block = 0
         self.answer_no = 0       # answers composed since the last reset (WTX positions refer to this)
         self.wtx_bad = 0
+        self.wtx_rsp_pl_bits = 0  # S(WTX) responses received with b8-b7 != 00 (RFU coding of the response INF byte)
+        self.wtx_accepted = []   # WTXM of every accepted S(WTX) response
 
     def power_cycle(self):
         self.activated = False
@@ -203,6 +216,10 @@ class T4TCard(object):
     def _block(self, data):
         pcb = data[0]
         n = len(data)
+        if self.block_hook is not None:
+            r = self.block_hook(self, data)
+            if r is not None:
+                return None if isinstance(r, str) else bytes(r)
         self.max_rx_block = max(self.max_rx_block, n)
         if n + 2 > self.fsc:
             self.oversize.append(n)
@@ -251,7 +268,7 @@ class T4TCard(object):
         if wtxm:
             self.wtx_pending = (out, rnd, wtxm)
             self.blocks["tx_SWTX"] += 1
-            out = bytes([0xF2, wtxm & 0x3F])
+            out = bytes([0xF2, (self.wtx_power & 3) << 6 | wtxm & 0x3F])
         self.last = out
         return out
 
@@ -302,10 +319,13 @@ class T4TCard(object):
             self.blocks["ignored"] += 1
             return None
         out, rnd, wtxm = self.wtx_pending
-        if len(data) != 2 or data[0] != 0xF2 or data[1] != (wtxm & 0x3F):
+        if len(data) == 2 and data[1] & 0xC0:
+            self.wtx_rsp_pl_bits += 1
+        if len(data) != 2 or data[0] != 0xF2 or (data[1] & 0x3F) != (wtxm & 0x3F) or (self.wtx_strict and data[1] & 0xC0):
             self.wtx_bad += 1
             return None
         self.wtx_pending = None
+        self.wtx_accepted.append(wtxm & 0x3F)
         return self._send(out, rnd + 1)
 
     # ---- APDU execution -------------------------------------------------------------------------
